@@ -1,8 +1,989 @@
-//! C04 — monitor not built yet.
+//! C04 — caches are transparent (losing/corrupting them never changes an answer) and every
+//! read terminates.
+//!
+//! Differential monitor: the same query is evaluated on the store "as found" (after a script of
+//! cache faults interleaved with appends and restarts) and on a copy from which every cache file
+//! has been removed (pure truth path); answers must be equal. Replay and cut points are also
+//! checked against an independent reading of the raw log. Termination is decided on logical
+//! steps: `cache.scan` ticks per query are counted by the step-budget handler.
+
+use crate::fixture::{copy_dir, App, Store};
+use crate::gen_hist::{exec, pick_kind, Known, OpKind};
+use crate::prng::Rng;
 use crate::report::{Cfg, Report};
+use crate::sched::{sched, with_step_budget};
+use crate::truth;
+use ripd::{
+    CompactionCutPointsV1Request, CompactionStatusV1Request, ContextSelectionStatusV1Request,
+    ContinuityRunLink, ProviderCursorRotateV1Request, ProviderCursorStatusV1Request,
+};
+use serde_json::{json, Value};
+use std::path::Path;
+
+pub const FILES: [&str; 9] = [
+    ".jsonl",
+    ".seek.v1.jsonl",
+    ".messages.v1.bin",
+    ".mr.v1.jsonl",
+    ".mr.seek.v1.jsonl",
+    ".mr.messages.v1.bin",
+    ".mr.msgord.v1.bin",
+    ".comp.v1.jsonl",
+    ".comp.idx.v1.jsonl",
+];
+pub const FILE_CLASS: [&str; 9] = [
+    "sidecar", "seek", "msgidx", "mr", "mrseek", "mrmsg", "mrord", "comp", "compidx",
+];
+
+#[derive(Clone, Copy, Debug, PartialEq, Eq)]
+pub enum FaultKind {
+    Delete,
+    TruncByte,
+    TruncLine,
+    TruncZero,
+    Garbage,
+    OtherThread,
+    HeadGarbage,
+    Rollback,
+    DropLastLine,
+}
+pub const FAULT_KINDS: [FaultKind; 9] = [
+    FaultKind::Delete,
+    FaultKind::TruncByte,
+    FaultKind::TruncLine,
+    FaultKind::TruncZero,
+    FaultKind::Garbage,
+    FaultKind::OtherThread,
+    FaultKind::HeadGarbage,
+    FaultKind::Rollback,
+    FaultKind::DropLastLine,
+];
+
+impl FaultKind {
+    fn name(&self) -> &'static str {
+        match self {
+            FaultKind::Delete => "delete",
+            FaultKind::TruncByte => "trunc_byte",
+            FaultKind::TruncLine => "trunc_line",
+            FaultKind::TruncZero => "trunc_zero",
+            FaultKind::Garbage => "garbage",
+            FaultKind::OtherThread => "other_thread",
+            FaultKind::HeadGarbage => "head_garbage",
+            FaultKind::Rollback => "rollback",
+            FaultKind::DropLastLine => "drop_last_line",
+        }
+    }
+}
+
+#[derive(Clone, Debug)]
+pub struct Fault {
+    pub file: usize,
+    pub kind: FaultKind,
+    pub at: u8, // 1 = after phase 2 (further appends follow), 2 = at the end (just before queries)
+    pub salt: u64,
+}
+
+impl FaultKind {
+    /// fault classes used in finding signatures
+    pub fn group(&self) -> &'static str {
+        match self {
+            FaultKind::TruncLine | FaultKind::Rollback | FaultKind::DropLastLine | FaultKind::TruncZero => "stale",
+            FaultKind::OtherThread => "foreign",
+            FaultKind::Garbage | FaultKind::HeadGarbage | FaultKind::TruncByte => "damaged",
+            FaultKind::Delete => "missing",
+        }
+    }
+}
+
+impl Fault {
+    fn sig(&self) -> String {
+        format!("{}/{}@{}", FILE_CLASS[self.file], self.kind.group(), self.at)
+    }
+    fn label(&self) -> String {
+        format!("{}:{}@{}", FILE_CLASS[self.file], self.kind.name(), self.at)
+    }
+}
+
+#[derive(Clone, Debug)]
+pub enum Shape {
+    Small,
+    Medium,
+    ManyMessages(u64),     // > 10_000 frames, messages only
+    DenseSideEffects(u64), // a few messages + cursor early, then > 10_000 non-message frames
+    BigSidecar(u64),       // > 8 MiB of large messages
+    Spread(u64),           // decisions / cursors / checkpoints spread over > 256 KiB of side effects
+}
+
+#[derive(Clone, Debug)]
+pub struct Plan {
+    pub seed: u64,
+    pub shape: Shape,
+    pub n: [usize; 3],
+    pub faults: Vec<Fault>,
+    pub restart1: bool,
+    pub restart2: bool,
+}
+
+fn weights() -> Vec<(OpKind, u64)> {
+    vec![
+        (OpKind::Msg, 30),
+        (OpKind::BigMsg, 1),
+        (OpKind::RunSpawned, 8),
+        (OpKind::RunEnded, 8),
+        (OpKind::SideEffects, 14),
+        (OpKind::Cursor, 8),
+        (OpKind::Rotate, 2),
+        (OpKind::ManualCkpt, 6),
+        (OpKind::Auto, 3),
+        (OpKind::Schedule, 3),
+        (OpKind::Compile, 5),
+    ]
+}
+
+pub fn apply_fault(store: &Store, thread: &str, other: &str, saved: &Path, f: &Fault) -> bool {
+    let dir = store.streams_dir();
+    let path = dir.join(format!("{thread}{}", FILES[f.file]));
+    let mut rng = Rng::new(f.salt);
+    let cur = std::fs::read(&path).ok();
+    match f.kind {
+        FaultKind::Delete => std::fs::remove_file(&path).is_ok(),
+        FaultKind::TruncZero => cur.is_some() && std::fs::write(&path, b"").is_ok(),
+        FaultKind::TruncByte => match cur {
+            Some(b) if !b.is_empty() => {
+                let n = rng.usize(b.len());
+                std::fs::write(&path, &b[..n]).is_ok()
+            }
+            _ => false,
+        },
+        FaultKind::TruncLine => match cur {
+            Some(b) if !b.is_empty() => {
+                let nls: Vec<usize> = b.iter().enumerate().filter(|(_, c)| **c == b'\n').map(|(i, _)| i).collect();
+                if nls.len() < 2 {
+                    return false;
+                }
+                let k = nls[rng.usize(nls.len() - 1)];
+                std::fs::write(&path, &b[..=k]).is_ok()
+            }
+            _ => false,
+        },
+        FaultKind::DropLastLine => match cur {
+            Some(b) if !b.is_empty() => {
+                let nls: Vec<usize> = b.iter().enumerate().filter(|(_, c)| **c == b'\n').map(|(i, _)| i).collect();
+                if nls.len() < 2 {
+                    return false;
+                }
+                let k = nls[nls.len() - 2];
+                std::fs::write(&path, &b[..=k]).is_ok()
+            }
+            _ => false,
+        },
+        FaultKind::Garbage => {
+            let n = cur.as_ref().map(|b| b.len()).unwrap_or(64).clamp(16, 4096);
+            std::fs::write(&path, rng.bytes(n)).is_ok()
+        }
+        FaultKind::HeadGarbage => match cur {
+            Some(b) if b.len() > 8 => {
+                let keep = (b.len() / 2).max(4);
+                let mut out = b[..keep].to_vec();
+                out.extend(rng.bytes(b.len() - keep));
+                std::fs::write(&path, out).is_ok()
+            }
+            _ => false,
+        },
+        FaultKind::OtherThread => {
+            let src = dir.join(format!("{other}{}", FILES[f.file]));
+            match std::fs::read(&src) {
+                Ok(b) => std::fs::write(&path, b).is_ok(),
+                Err(_) => false,
+            }
+        }
+        FaultKind::Rollback => {
+            let src = saved.join(format!("{thread}{}", FILES[f.file]));
+            match std::fs::read(&src) {
+                Ok(b) => cur.as_ref() != Some(&b) && std::fs::write(&path, b).is_ok(),
+                Err(_) => false,
+            }
+        }
+    }
+}
+
+#[derive(Debug, Clone)]
+pub struct QueryDef {
+    pub name: String,
+    pub class: &'static str,
+    pub args: Value,
+}
+
+fn queries(msgs: &[(u64, String)], head: u64, big: bool) -> Vec<QueryDef> {
+    let mut q = Vec::new();
+    let mk = |name: String, class: &'static str, args: Value| QueryDef { name, class, args };
+    q.push(mk("replay".into(), "replay", json!({})));
+    let strides: &[u64] = if big { &[1, 1000] } else { &[1, 2, 3, 7] };
+    for s in strides {
+        for l in [None, Some(1u32), Some(32)] {
+            q.push(mk(format!("cut_points(stride={s},limit={l:?})"), "cut_points", json!({"stride": s, "limit": l})));
+        }
+    }
+    for s in [1u64, 2, 5] {
+        q.push(mk(format!("status(stride={s})"), "status", json!({"stride": s})));
+    }
+    q.push(mk("cursor_status".into(), "cursor_status", json!({})));
+    q.push(mk("cursor_rotate".into(), "cursor_rotate", json!({})));
+    for l in [None, Some(1u32), Some(3), Some(1000)] {
+        q.push(mk(format!("selection_status(limit={l:?})"), "selection_status", json!({"limit": l})));
+    }
+    if !msgs.is_empty() {
+        let picks = [
+            ("tail", msgs.len() - 1),
+            ("mid", msgs.len() / 2),
+            ("first", 0),
+            ("back17", msgs.len().saturating_sub(18)),
+        ];
+        for (tag, i) in picks {
+            q.push(mk(format!("compile(anchor={tag})"), "compile", json!({"message_id": msgs[i].1})));
+        }
+        q.push(mk("branch(from_message=mid)".into(), "branch", json!({"from_message_id": msgs[msgs.len() / 2].1})));
+        q.push(mk("handoff(from_message=mid)".into(), "handoff", json!({"from_message_id": msgs[msgs.len() / 2].1})));
+    }
+    q.push(mk("branch(none)".into(), "branch", json!({})));
+    q.push(mk("branch(from_seq=mid)".into(), "branch", json!({"from_seq": head / 2})));
+    q.push(mk("handoff(none)".into(), "handoff", json!({})));
+    q
+}
+
+/// Run one query on a store directory (fresh App). Result is normalised JSON.
+fn run_query(store: &Store, thread: &str, q: &QueryDef) -> Value {
+    // only `compile` needs the whole engine; everything else runs on a bare ContinuityStore
+    let app = if q.class == "compile" {
+        match App::open(store, None) {
+            Ok(a) => Some(a),
+            Err(e) => return json!({"open_error": e}),
+        }
+    } else {
+        None
+    };
+    let st: std::sync::Arc<ripd::ContinuityStore> = match &app {
+        Some(a) => a.store(),
+        None => {
+            let log = match rip_log::EventLog::new(store.log_path()) {
+                Ok(l) => std::sync::Arc::new(l),
+                Err(e) => return json!({"open_error": e.to_string()}),
+            };
+            match ripd::ContinuityStore::new(store.data.clone(), store.ws.clone(), log) {
+                Ok(s) => std::sync::Arc::new(s),
+                Err(e) => return json!({"open_error": e}),
+            }
+        }
+    };
+    let res: Result<Value, String> = match q.class {
+        "replay" => st
+            .replay_events(thread)
+            .map(|ev| Value::Array(ev.iter().map(|e| serde_json::to_value(e).unwrap_or(Value::Null)).collect()))
+            .map_err(|e| format!("io:{:?}", e.kind())),
+        "cut_points" => st
+            .compaction_cut_points_v1(
+                thread,
+                CompactionCutPointsV1Request {
+                    stride_messages: q.args["stride"].as_u64(),
+                    limit: q.args["limit"].as_u64().map(|x| x as u32),
+                },
+            )
+            .map(|r| serde_json::to_value(r).unwrap_or(Value::Null)),
+        "status" => st
+            .compaction_status_v1(thread, CompactionStatusV1Request { stride_messages: q.args["stride"].as_u64() })
+            .map(|r| {
+                let mut v = serde_json::to_value(r).unwrap_or(Value::Null);
+                if let Some(o) = v.as_object_mut() {
+                    o.remove("inflight_job_id"); // declared best-effort in compaction.md
+                }
+                v
+            }),
+        "cursor_status" => st
+            .provider_cursor_status_v1(thread, ProviderCursorStatusV1Request {})
+            .map(|r| serde_json::to_value(r).unwrap_or(Value::Null)),
+        "cursor_rotate" => st
+            .provider_cursor_rotate_v1(
+                thread,
+                ProviderCursorRotateV1Request {
+                    provider: None,
+                    endpoint: None,
+                    model: None,
+                    reason: Some("q".into()),
+                    actor_id: "q".into(),
+                    origin: "q".into(),
+                },
+            )
+            .map(|r| {
+                let mut v = serde_json::to_value(r).unwrap_or(Value::Null);
+                if let Some(o) = v.as_object_mut() {
+                    o.remove("cursor_event_id");
+                }
+                v
+            }),
+        "selection_status" => st
+            .context_selection_status_v1(
+                thread,
+                ContextSelectionStatusV1Request { limit: q.args["limit"].as_u64().map(|x| x as u32) },
+            )
+            .map(|r| serde_json::to_value(r).unwrap_or(Value::Null)),
+        "compile" => {
+            let link = ContinuityRunLink {
+                continuity_id: thread.to_string(),
+                message_id: q.args["message_id"].as_str().unwrap_or("").to_string(),
+                actor_id: "q".into(),
+                origin: "q".into(),
+            };
+            ripd::verif_export::compile_context_for_run(&app.as_ref().unwrap().engine, &store.data, &link, "q-session", false).map(
+                |mut v| {
+                    let art = v["bundle_artifact_id"].as_str().unwrap_or("").to_string();
+                    let bundle: Value = std::fs::read(store.ws.join(".rip/artifacts/blobs").join(&art))
+                        .ok()
+                        .and_then(|b| serde_json::from_slice(&b).ok())
+                        .unwrap_or(json!("bundle unreadable"));
+                    if let Some(o) = v.as_object_mut() {
+                        o.remove("bundle_artifact_id");
+                        o.insert("bundle".into(), bundle);
+                    }
+                    v
+                },
+            )
+        }
+        "branch" => st
+            .branch(
+                thread,
+                None,
+                q.args["from_message_id"].as_str().map(|s| s.to_string()),
+                q.args["from_seq"].as_u64(),
+                "q".into(),
+                "q".into(),
+            )
+            .map(|(_, seq, mid)| json!({"parent_seq": seq, "parent_message_id": mid})),
+        "handoff" => st
+            .handoff(
+                thread,
+                None,
+                (Some("s".into()), None),
+                q.args["from_message_id"].as_str().map(|s| s.to_string()),
+                q.args["from_seq"].as_u64(),
+                ("q".into(), "q".into()),
+            )
+            .map(|(_, seq, mid)| json!({"from_seq": seq, "from_message_id": mid})),
+        _ => Err("unknown query".into()),
+    };
+    match res {
+        Ok(v) => json!({"ok": v}),
+        // error texts may legitimately differ between paths; the fact of failing may not
+        Err(e) => json!({"err": e.chars().take(60).collect::<String>()}),
+    }
+}
+
+pub struct Outcome {
+    pub mismatches: Vec<(String, String, String)>, // (query class, query name, detail)
+    pub nonterm: Vec<(String, String, u64)>,
+    pub truth_corrupt: Option<String>,
+    pub applied: Vec<String>,
+    pub frames: usize,
+    pub queries: usize,
+    pub max_steps: u64,
+    pub model_mismatch: Vec<(String, String)>,
+}
+
+const STEP_BUDGET: u64 = 160;
+
+fn build_ops(app: &App, store: &Store, conts: &[String], known: &mut Known, rng: &mut Rng, n: usize, tag: &str) {
+    let w = weights();
+    if tag.starts_with('p') && tag != "p0" {
+        // every phase contains every frame kind, so that which queries a fault can affect does not
+        // depend on the luck of the random ops
+        for k in [
+            OpKind::Msg, OpKind::Msg, OpKind::RunSpawned, OpKind::Compile, OpKind::Cursor, OpKind::SideEffects,
+            OpKind::ManualCkpt, OpKind::Msg, OpKind::Schedule, OpKind::RunEnded, OpKind::Msg, OpKind::Cursor,
+        ] {
+            let _ = exec(app, &store.data, conts, known, k, rng, tag);
+        }
+    }
+    for _ in 0..n {
+        let k = pick_kind(rng, &w);
+        let _ = exec(app, &store.data, conts, known, k, rng, tag);
+    }
+}
+
+pub fn execute(plan: &Plan, only_faults: Option<&[usize]>) -> Outcome {
+    let mut rng = Rng::new(plan.seed);
+    let store = Store::new("c04");
+    let saved = store.dir.join("saved-caches");
+    let mut out = Outcome {
+        mismatches: vec![],
+        nonterm: vec![],
+        truth_corrupt: None,
+        applied: vec![],
+        frames: 0,
+        queries: 0,
+        max_steps: 0,
+        model_mismatch: vec![],
+    };
+    let faults: Vec<&Fault> = plan
+        .faults
+        .iter()
+        .enumerate()
+        .filter(|(i, _)| only_faults.map(|o| o.contains(i)).unwrap_or(true))
+        .map(|(_, f)| f)
+        .collect();
+
+    let mut app = App::open(&store, None).expect("open");
+    let thread = app.store().ensure_default().expect("default");
+    let mut known = Known::default();
+    // sibling thread (source for "other thread" faults)
+    let mut known_o = Known::default();
+    let _ = exec(&app, &store.data, &[thread.clone()], &mut known, OpKind::Msg, &mut rng, "p0");
+    let other = app
+        .store()
+        .branch(&thread, None, None, None, "rv".into(), "rv".into())
+        .map(|x| x.0)
+        .unwrap_or_default();
+    if !other.is_empty() {
+        build_ops(&app, &store, &[other.clone()], &mut known_o, &mut rng, 12, "o");
+    }
+    let conts = vec![thread.clone()];
+    // phase 1
+    match plan.shape {
+        Shape::ManyMessages(n) => {
+            let st = app.store();
+            // a cursor and a decision early (far beyond every tail window later)
+            build_ops(&app, &store, &conts, &mut known, &mut rng, 30, "p1");
+            for i in 0..n {
+                if let Ok(id) = st.append_message(&thread, "a".into(), "rv".into(), format!("m{i}")) {
+                    if i % 1000 == 0 || i + 40 > n {
+                        known.msgs.push((thread.clone(), id));
+                    }
+                }
+            }
+        }
+        Shape::DenseSideEffects(n) => {
+            build_ops(&app, &store, &conts, &mut known, &mut rng, 40, "p1");
+            let st = app.store();
+            let link = ContinuityRunLink {
+                continuity_id: thread.clone(),
+                message_id: known.msgs.last().map(|m| m.1.clone()).unwrap_or_default(),
+                actor_id: "a".into(),
+                origin: "rv".into(),
+            };
+            for i in 0..n {
+                let _ = st.append_tool_side_effects(
+                    &link,
+                    "sess-dense",
+                    ripd::ToolSideEffects {
+                        tool_id: format!("t{i}"),
+                        tool_name: "write".into(),
+                        affected_paths: Some(vec![format!("f{i}")]),
+                        checkpoint_id: None,
+                    },
+                );
+            }
+        }
+        Shape::BigSidecar(n) => {
+            build_ops(&app, &store, &conts, &mut known, &mut rng, 30, "p1");
+            let st = app.store();
+            let filler = "x".repeat(8200);
+            for i in 0..n {
+                if let Ok(id) = st.append_message(&thread, "a".into(), "rv".into(), format!("m{i} {filler}")) {
+                    if i % 200 == 0 || i + 20 > n {
+                        known.msgs.push((thread.clone(), id));
+                    }
+                }
+            }
+        }
+        Shape::Spread(n) => {
+            build_ops(&app, &store, &conts, &mut known, &mut rng, 20, "p1");
+            let st = app.store();
+            for i in 0..n {
+                if i % 300 == 0 {
+                    for k in [OpKind::Msg, OpKind::Compile, OpKind::Cursor, OpKind::ManualCkpt, OpKind::Schedule] {
+                        let _ = exec(&app, &store.data, &conts, &mut known, k, &mut rng, "sp");
+                    }
+                }
+                let link = ContinuityRunLink {
+                    continuity_id: thread.clone(),
+                    message_id: known.msgs.last().map(|m| m.1.clone()).unwrap_or_default(),
+                    actor_id: "a".into(),
+                    origin: "rv".into(),
+                };
+                let _ = st.append_tool_side_effects(
+                    &link,
+                    "sess-spread",
+                    ripd::ToolSideEffects {
+                        tool_id: format!("t{i}"),
+                        tool_name: "write".into(),
+                        affected_paths: Some(vec![format!("some/longer/path/to/make/frames/bigger/f{i}.txt")]),
+                        checkpoint_id: None,
+                    },
+                );
+            }
+        }
+        _ => build_ops(&app, &store, &conts, &mut known, &mut rng, plan.n[0], "p1"),
+    }
+    copy_dir(&store.streams_dir(), &saved);
+    // phase 2
+    build_ops(&app, &store, &conts, &mut known, &mut rng, plan.n[1], "p2");
+    for f in faults.iter().filter(|f| f.at == 1) {
+        if apply_fault(&store, &thread, &other, &saved, f) {
+            out.applied.push(f.label());
+        }
+    }
+    if plan.restart1 {
+        // authority restarted after the fault: next seq etc. are re-derived from what is on disk
+        app = App::open(&store, None).expect("reopen");
+    }
+    // phase 3: further appends on top of the faulted caches
+    build_ops(&app, &store, &conts, &mut known, &mut rng, plan.n[2], "p3");
+    drop(app);
+    for f in faults.iter().filter(|f| f.at == 2) {
+        if apply_fault(&store, &thread, &other, &saved, f) {
+            out.applied.push(f.label());
+        }
+    }
+    let _ = std::fs::remove_dir_all(&saved);
+
+    // the truth log must still be valid (appends after a cache fault must not corrupt truth)
+    let bytes = store.log_bytes();
+    let frames = match truth::parse_log(&bytes) {
+        Ok(f) => f,
+        Err(e) => {
+            out.truth_corrupt = Some(format!("{}: {}", e.kind, e.detail));
+            return out;
+        }
+    };
+    out.frames = frames.len();
+    if let Err(e) = truth::check_streams(&frames) {
+        out.truth_corrupt = Some(format!("{}: {}", e.kind, e.detail));
+        return out;
+    }
+    let tframes = truth::stream(&frames, "continuity", &thread);
+    if std::env::var("RV_C04_DEBUG").is_ok() {
+        let mut h: std::collections::BTreeMap<String, usize> = Default::default();
+        for f in &tframes {
+            *h.entry(f.ty().to_string()).or_insert(0) += 1;
+        }
+        eprintln!("shape {:?}: {:?} sidecar bytes {:?}", plan.shape, h, std::fs::metadata(store.streams_dir().join(format!("{thread}.jsonl"))).map(|m| m.len()).ok());
+    }
+    let msgs = truth::messages(&tframes);
+    let head = tframes.last().map(|f| f.seq()).unwrap_or(0);
+    let big = !matches!(plan.shape, Shape::Small | Shape::Medium);
+    let qs = queries(&msgs, head, big);
+
+    // reference store: all caches removed
+    let reference = store.fork_sharing_ws("c04ref");
+    let _ = std::fs::remove_dir_all(reference.streams_dir());
+
+    for q in &qs {
+        out.queries += 1;
+        let (fa, fb);
+        let sa: &Store;
+        let sb: &Store;
+        if big {
+            // large stores: no per-query fork (copy cost); queries run in sequence on one copy
+            sa = &store;
+            sb = &reference;
+            // keep the reference on the pure truth path: drop whatever the previous query rebuilt
+            let _ = std::fs::remove_dir_all(reference.streams_dir());
+        } else {
+            fa = store.fork_sharing_ws("c04a");
+            fb = reference.fork_sharing_ws("c04b");
+            sa = &fa;
+            sb = &fb;
+        }
+        let a = match with_step_budget(STEP_BUDGET, || run_query(sa, &thread, q)) {
+            Ok((v, used)) => {
+                out.max_steps = out.max_steps.max(used);
+                v
+            }
+            Err(used) => {
+                out.nonterm.push((q.class.to_string(), q.name.clone(), used));
+                continue;
+            }
+        };
+        let b = match with_step_budget(STEP_BUDGET, || run_query(sb, &thread, q)) {
+            Ok((v, used)) => {
+                out.max_steps = out.max_steps.max(used);
+                v
+            }
+            Err(used) => {
+                out.nonterm.push((q.class.to_string(), format!("{} [no-cache path]", q.name), used));
+                continue;
+            }
+        };
+        if std::env::var("RV_C04_DEBUG").is_ok() && q.class == "selection_status" {
+            eprintln!("{} as-found decisions={:?} ref={:?}", q.name, a["ok"]["decisions"].as_array().map(|x| x.iter().map(|d| d["seq"].as_u64().unwrap_or(0)).collect::<Vec<_>>()), b["ok"]["decisions"].as_array().map(|x| x.len()));
+        }
+        if a != b {
+            out.mismatches.push((q.class.to_string(), q.name.clone(), diff_summary(&a, &b)));
+        }
+        // independent model for replay and cut points (on the reference answer)
+        if q.class == "replay" {
+            if let Some(arr) = b.get("ok").and_then(|x| x.as_array()) {
+                let same = arr.len() == tframes.len() && arr.iter().zip(tframes.iter()).all(|(x, y)| truth::json_eq_lenient(x, &y.v));
+                if !same {
+                    out.model_mismatch.push((
+                        q.name.clone(),
+                        format!("no-cache replay returns {} frames, raw log has {}", arr.len(), tframes.len()),
+                    ));
+                }
+            }
+        }
+        if q.class == "cut_points" {
+            if let Some(ok) = b.get("ok") {
+                let stride = q.args["stride"].as_u64().unwrap_or(1).max(1);
+                let limit = q.args["limit"].as_u64().unwrap_or(1).clamp(1, 32) as usize;
+                let limit = if q.args["limit"].is_null() { ok["cut_points"].as_array().map(|a| a.len()).unwrap_or(0) } else { limit };
+                let mut expect: Vec<(u64, u64, String)> = Vec::new();
+                let mut k = (msgs.len() as u64) / stride;
+                while k >= 1 && expect.len() < limit {
+                    let ord = k * stride;
+                    let (s, id) = &msgs[(ord - 1) as usize];
+                    expect.push((ord, *s, id.clone()));
+                    k -= 1;
+                }
+                let got: Vec<(u64, u64, String)> = ok["cut_points"]
+                    .as_array()
+                    .map(|a| {
+                        a.iter()
+                            .map(|c| {
+                                (
+                                    c["target_message_ordinal"].as_u64().unwrap_or(0),
+                                    c["to_seq"].as_u64().unwrap_or(0),
+                                    c["to_message_id"].as_str().unwrap_or("").to_string(),
+                                )
+                            })
+                            .collect()
+                    })
+                    .unwrap_or_default();
+                if got != expect || ok["message_count"].as_u64() != Some(msgs.len() as u64) {
+                    out.model_mismatch.push((
+                        q.name.clone(),
+                        format!(
+                            "no-cache cut points {:?}… (count {:?}) vs raw-log model {:?}… (count {})",
+                            got.first(),
+                            ok["message_count"],
+                            expect.first(),
+                            msgs.len()
+                        ),
+                    ));
+                }
+            }
+        }
+    }
+    out
+}
+
+fn diff_summary(a: &Value, b: &Value) -> String {
+    fn walk(a: &Value, b: &Value, path: &str, out: &mut Vec<String>) {
+        if out.len() >= 3 {
+            return;
+        }
+        match (a, b) {
+            (Value::Object(x), Value::Object(y)) => {
+                let mut keys: Vec<&String> = x.keys().chain(y.keys()).collect();
+                keys.sort();
+                keys.dedup();
+                for k in keys {
+                    walk(x.get(k).unwrap_or(&Value::Null), y.get(k).unwrap_or(&Value::Null), &format!("{path}.{k}"), out);
+                }
+            }
+            (Value::Array(x), Value::Array(y)) => {
+                if x.len() != y.len() {
+                    out.push(format!("{path}: len {} vs {}", x.len(), y.len()));
+                    return;
+                }
+                for (i, (p, q)) in x.iter().zip(y.iter()).enumerate() {
+                    walk(p, q, &format!("{path}[{i}]"), out);
+                }
+            }
+            _ => {
+                if a != b {
+                    let sa: String = a.to_string().chars().take(80).collect();
+                    let sb: String = b.to_string().chars().take(80).collect();
+                    out.push(format!("{path}: as-found {sa} vs no-cache {sb}"));
+                }
+            }
+        }
+    }
+    let mut out = Vec::new();
+    walk(a, b, "", &mut out);
+    out.join("; ")
+}
+
+fn plan_json(p: &Plan) -> Value {
+    json!({
+        "seed": p.seed,
+        "shape": format!("{:?}", p.shape),
+        "ops": p.n,
+        "faults": p.faults.iter().map(|f| json!({"file": f.file, "class": FILE_CLASS[f.file], "kind": f.kind.name(), "at": f.at, "salt": f.salt})).collect::<Vec<_>>(),
+        "restart1": p.restart1, "restart2": p.restart2,
+    })
+}
+
+fn plan_from_json(v: &Value) -> Option<Plan> {
+    let shape_s = v["shape"].as_str()?;
+    let num = |s: &str| s.trim_end_matches(')').rsplit('(').next().and_then(|x| x.parse::<u64>().ok()).unwrap_or(0);
+    let shape = if shape_s.starts_with("ManyMessages") {
+        Shape::ManyMessages(num(shape_s))
+    } else if shape_s.starts_with("DenseSideEffects") {
+        Shape::DenseSideEffects(num(shape_s))
+    } else if shape_s.starts_with("BigSidecar") {
+        Shape::BigSidecar(num(shape_s))
+    } else if shape_s.starts_with("Spread") {
+        Shape::Spread(num(shape_s))
+    } else if shape_s == "Medium" {
+        Shape::Medium
+    } else {
+        Shape::Small
+    };
+    let n = v["ops"].as_array()?;
+    let faults = v["faults"]
+        .as_array()?
+        .iter()
+        .filter_map(|f| {
+            let kind = FAULT_KINDS.iter().find(|k| Some(k.name()) == f["kind"].as_str())?;
+            Some(Fault { file: f["file"].as_u64()? as usize, kind: *kind, at: f["at"].as_u64()? as u8, salt: f["salt"].as_u64()? })
+        })
+        .collect();
+    Some(Plan {
+        seed: v["seed"].as_u64()?,
+        shape,
+        n: [n[0].as_u64()? as usize, n[1].as_u64()? as usize, n[2].as_u64()? as usize],
+        faults,
+        restart1: v["restart1"].as_bool().unwrap_or(true),
+        restart2: v["restart2"].as_bool().unwrap_or(true),
+    })
+}
+
+/// Attribute a failure to the smallest fault subset that reproduces it (single faults first).
+fn attribute(plan: &Plan, class: &str, pred: &dyn Fn(&Outcome) -> bool) -> String {
+    if plan.faults.is_empty() {
+        return "no_fault".to_string();
+    }
+    if plan.faults.len() == 1 {
+        let f = &plan.faults[0];
+        return f.sig();
+    }
+    for (i, f) in plan.faults.iter().enumerate() {
+        let o = execute(plan, Some(&[i]));
+        if pred(&o) {
+            return f.sig();
+        }
+    }
+    // also possible with no fault at all?
+    let o = execute(plan, Some(&[]));
+    if pred(&o) {
+        return "no_fault".to_string();
+    }
+    let mut l: Vec<String> = plan.faults.iter().map(|f| format!("{}:{}", FILE_CLASS[f.file], f.kind.name())).collect();
+    l.sort();
+    l.dedup();
+    let _ = class;
+    format!("multi[{}]", l.join("+"))
+}
+
+fn shape_class(s: &Shape) -> &'static str {
+    match s {
+        Shape::Small | Shape::Medium => "bounded",
+        Shape::ManyMessages(_) => "many_messages",
+        Shape::DenseSideEffects(_) => "dense_side_effects",
+        Shape::BigSidecar(_) => "big_sidecar",
+        Shape::Spread(_) => "spread",
+    }
+}
+
+fn judge(r: &mut Report, plan: &Plan, o: &Outcome) {
+    r.count("queries_compared", o.queries as u64);
+    r.count("frames_in_histories", o.frames as u64);
+    r.count("faults_applied", o.applied.len() as u64);
+    let cur = r.counters.get("max_scan_steps_in_one_query").copied().unwrap_or(0);
+    if o.max_steps > cur {
+        r.counters.insert("max_scan_steps_in_one_query".into(), o.max_steps);
+    }
+    let sc = shape_class(&plan.shape);
+    if let Some(tc) = &o.truth_corrupt {
+        let kind = tc.split(':').next().unwrap_or("corrupt").to_string();
+        let attr = attribute(plan, "truth", &|x: &Outcome| x.truth_corrupt.is_some());
+        r.violation(
+            &format!("C04/truth_log_corrupted_by_append_after_cache_fault/{kind}/{attr}"),
+            &format!("after a cache fault ({attr}) a later append corrupted the truth log: {tc}"),
+            json!({"plan": plan_json(plan), "applied": o.applied, "detail": tc}),
+        );
+        return;
+    }
+    for (class, name, used) in &o.nonterm {
+        let c2 = class.clone();
+        let attr = if plan.faults.is_empty() {
+            "no_fault".to_string()
+        } else {
+            attribute(plan, class, &move |x: &Outcome| x.nonterm.iter().any(|n| n.0 == c2))
+        };
+        r.violation(
+            &format!("C04/non_termination/{class}/{}", if attr == "no_fault" { format!("no_fault/{sc}") } else { attr.clone() }),
+            &format!("{name} exceeded the scan-step budget ({used} > {STEP_BUDGET} cache.scan steps) on a {sc} thread"),
+            json!({"plan": plan_json(plan), "applied": o.applied, "query": name, "steps": used}),
+        );
+    }
+    for (class, name, detail) in &o.mismatches {
+        let c2 = class.clone();
+        let attr = attribute(plan, class, &move |x: &Outcome| x.mismatches.iter().any(|n| n.0 == c2));
+        r.violation(
+            &format!("C04/answer_differs/{class}/{}", if attr == "no_fault" { format!("no_fault/{sc}") } else { attr.clone() }),
+            &format!("{name}: answer with caches as found differs from the answer with caches removed ({attr}): {detail}"),
+            json!({"plan": plan_json(plan), "applied": o.applied, "query": name, "detail": detail}),
+        );
+    }
+    for (name, detail) in &o.model_mismatch {
+        r.violation(
+            &format!("C04/no_cache_answer_differs_from_raw_log_model/{}/{sc}", name.split('(').next().unwrap_or(name)),
+            &format!("{name}: {detail}"),
+            json!({"plan": plan_json(plan), "query": name, "detail": detail}),
+        );
+    }
+}
 
 pub fn run(cfg: &Cfg) -> i32 {
-    let mut r = Report::new("C04", "exploration", "not built");
-    r.fatal_inconclusive("monitor not built yet");
+    let mut r = Report::new(
+        "C04",
+        "fault_enumeration",
+        "cache-fault scripts × query set: every (cache file class × fault kind × position) single fault is enumerated \
+         on seeded histories, then random multi-fault scripts, plus directed long threads (>10^4 frames, >8 MiB sidecar, \
+         dense non-message frames); each query is evaluated as-found vs caches-removed (and replay/cut-points vs a raw-log \
+         model); distinct = distinct (fault script shape, history shape) whose faults were really applied",
+    );
+    r.assume("the no-cache path is the reference for answers other than replay / cut points (those are also checked against the raw log)");
+    r.assume("termination is judged on cache.scan steps (budget 160 per query), loops without a hook would only be seen by the wall-clock watchdog");
+    let _s = sched(); // installs the step-budget handler
+    if let Some(p) = &cfg.replay {
+        let v: Value = std::fs::read(p).ok().and_then(|b| serde_json::from_slice(&b).ok()).unwrap_or(Value::Null);
+        if let Some(plan) = plan_from_json(&v["witness"]["plan"]) {
+            let o = execute(&plan, None);
+            r.eval();
+            r.distinct_str("replay");
+            r.distinct_str("replay2");
+            r.sample(plan_json(&plan));
+            judge(&mut r, &plan, &o);
+            return r.finish(cfg);
+        }
+        r.fatal_inconclusive("replay file has no plan");
+        return r.finish(cfg);
+    }
+
+    let mut idx = 0u64;
+    // 1. directed long threads (every shard 0 run; cheap because appends cost ~25 µs)
+    let directed: Vec<Shape> = vec![
+        Shape::ManyMessages(10_400),
+        Shape::DenseSideEffects(10_300),
+        Shape::BigSidecar(cfg.tier.pick(1_100, 1_300)),
+        Shape::Spread(3_000),
+    ];
+    for (k, shape) in directed.into_iter().enumerate() {
+        let i = idx;
+        idx += 1;
+        if !cfg.mine(i) {
+            continue;
+        }
+        let plan = Plan { seed: cfg.seed.wrapping_add(k as u64), shape, n: [0, 10, 10], faults: vec![], restart1: true, restart2: true };
+        let o = execute(&plan, None);
+        r.eval();
+        r.distinct_str(&format!("directed:{:?}", plan.shape));
+        r.sample(json!({"plan": plan_json(&plan), "frames": o.frames, "queries": o.queries, "max_steps": o.max_steps}));
+        judge(&mut r, &plan, &o);
+        // the same long thread with one deleted / truncated cache
+        if cfg.tier == crate::report::Tier::Thorough || k == 0 {
+            for (file, kind) in [(0usize, FaultKind::Delete), (3, FaultKind::TruncLine), (6, FaultKind::Delete)] {
+                let mut p2 = plan.clone();
+                p2.faults = vec![Fault { file, kind, at: 2, salt: 7 }];
+                let o = execute(&p2, None);
+                r.eval();
+                if !o.applied.is_empty() {
+                    r.distinct_str(&format!("directed:{:?}:{}", p2.shape, p2.faults[0].label()));
+                }
+                judge(&mut r, &p2, &o);
+            }
+        }
+    }
+    // 2. single-fault enumeration: file × kind × position
+    let mut enum_cases = Vec::new();
+    for at in [2u8, 1u8] {
+        for file in 0..FILES.len() {
+            for kind in FAULT_KINDS {
+                enum_cases.push((file, kind, at));
+            }
+        }
+    }
+    let rounds = cfg.tier.pick(1u64, 12u64);
+    'outer: for round in 0..rounds {
+        for (file, kind, at) in &enum_cases {
+            let i = idx;
+            idx += 1;
+            if !cfg.mine(i) {
+                continue;
+            }
+            if r.over(cfg) {
+                break 'outer;
+            }
+            let mut rng = cfg.case_rng(i);
+            let plan = Plan {
+                seed: rng.next_u64(),
+                shape: if round % 4 == 3 { Shape::Medium } else { Shape::Small },
+                n: if round % 4 == 3 { [400, 300, 100] } else { [20 + rng.usize(60), 10 + rng.usize(40), rng.usize(30)] },
+                faults: vec![Fault { file: *file, kind: *kind, at: *at, salt: rng.next_u64() }],
+                restart1: true,
+                restart2: true,
+            };
+            let o = execute(&plan, None);
+            r.eval();
+            if !o.applied.is_empty() {
+                r.distinct_str(&format!("{}|{:?}", plan.faults[0].label(), shape_class(&plan.shape)));
+                r.count(&format!("fault:{}", plan.faults[0].kind.name()), 1);
+            } else {
+                r.count("fault_not_applicable", 1);
+            }
+            if r.samples.len() < r.max_samples {
+                r.sample(json!({"plan": plan_json(&plan), "applied": o.applied, "frames": o.frames, "queries": o.queries}));
+            }
+            judge(&mut r, &plan, &o);
+        }
+    }
+    // 3. random multi-fault scripts
+    while !r.over(cfg) && idx < cfg.tier.pick(2_000, 2_000_000) {
+        let i = idx;
+        idx += 1;
+        if !cfg.mine(i) {
+            continue;
+        }
+        let mut rng = cfg.case_rng(i);
+        let nf = 2 + rng.usize(4);
+        let faults = (0..nf)
+            .map(|_| Fault {
+                // only the four index files whose content is validated against the sidecars; faults on the
+                // sidecars themselves are covered one at a time by the enumeration above
+                file: [1usize, 2, 4, 5][rng.usize(4)],
+                kind: FAULT_KINDS[rng.usize(FAULT_KINDS.len())],
+                at: 1 + rng.below(2) as u8,
+                salt: rng.next_u64(),
+            })
+            .collect();
+        let plan = Plan {
+            seed: rng.next_u64(),
+            shape: Shape::Small,
+            n: [10 + rng.usize(80), 5 + rng.usize(50), rng.usize(40)],
+            faults,
+            restart1: true,
+            restart2: true,
+        };
+        let o = execute(&plan, None);
+        r.eval();
+        if o.applied.len() >= 2 {
+            let mut l = o.applied.clone();
+            l.sort();
+            r.distinct_str(&format!("multi:{}", l.join(",")));
+            r.count("multi_fault_scripts", 1);
+        }
+        judge(&mut r, &plan, &o);
+    }
     r.finish(cfg)
 }
